@@ -241,6 +241,8 @@ func sameKey(a, b ssa.Value) bool {
 
 func runC12(w *World, r *Report) {
 	optionSemantics(w, r, "C12")
+	c12OptionValidation(w, r)
+	c12PositionSource(w, r)
 	c12Gate(w, r)
 	c12Namespaces(w, r)
 	c12Live(w, r)
@@ -543,6 +545,13 @@ func c12Namespaces(w *World, r *Report) {
 			switch x := ins.(type) {
 			case *ssa.MapUpdate:
 				ns := namespaceOf(w, fn, x.Map)
+				if _, fresh := valueRoot(x.Map).(*ssa.MakeMap); ns == "" && fresh && pairFieldOf(x.Key) != "" && fn.Pkg == w.Parser && recvNamedCore(fn) == "PacketDslVisitorImpl" {
+					ns = "match keys"
+					if pf := pairFieldOf(x.Key); pf != "Key" {
+						r.fail(rule, fmt.Sprintf("%s: the keys of one match field are unique by key", fnKey(fn)), w.instrPos(ins), "the duplicate check of a match table is keyed by MatchPair."+pf+": two entries with the same key pass, two keys for one packet are rejected")
+						return
+					}
+				}
 				if ns == "" {
 					return
 				}
